@@ -138,18 +138,32 @@ def leaf_class(path, n):
     return path[(n - 1) % len(path)][3]
 
 
+def step_coq(T, p, hole):
+    """`step_of c attrs text before m after xattrs xelems` (Model/ValidateDeep.v): the literal of p as obj_to_coq prints it,
+    split at the child `hole` - the form C13_step_of_is_child_step / C13_rejects_at_any_depth speak about"""
+    cid = T.cid[type(p)]
+    row = T.rows[cid]
+    attrs = ["(%d,%s)" % (m, schema_gen.cstr(getattr(p, T.names[m]))) for (_x, m, _t, _r) in row["attrs"] if getattr(p, T.names[m], None) is not None]
+    before, after, hit = [], [], None
+    for m, l in schema_gen._kids(T, p, row):
+        for k in l:
+            if k is hole:
+                assert hit is None
+                hit = m
+            else:
+                (before if hit is None else after).append("(%d,%s)" % (m, obj_to_coq(T, k)))
+    assert hit is not None
+    return "(step_of %d [%s] %s [%s] %d [%s] %s [%s])" % (cid, ";".join(attrs), schema_gen._text_coq(p.text), ";".join(before), hit, ";".join(after),
+                                                        schema_gen._pairs_coq(T, p.extension_attributes.items()), ";".join(schema_gen.ext_to_coq(T, e) for e in p.extension_elements))
+
+
 def templates(B, path):
-    """one Coq function per child edge: the literal of the parent as _put builds it, with a hole for the chain"""
+    """one Coq step per child edge: the parent as _put builds it, with a hole for the chain"""
     T = B.T
     out = []
     for (pid, m, islist, cid) in path:
         hole = T.classes[cid]()
-        hole.text = HOLE
-        hole.extension_attributes.clear()
-        hs = obj_to_coq(T, hole)
-        s = obj_to_coq(T, _put(B, B.minimal(pid), pid, m, islist, cid, hole))
-        assert s.count(hs) == 1, (T.qname[pid], T.names[m])
-        out.append("(fun x : inst => %s)" % s.replace(hs, "x"))
+        out.append(step_coq(T, _put(B, B.minimal(pid), pid, m, islist, cid, hole), hole))
     return "[" + ";".join(out) + "]"
 
 
